@@ -76,6 +76,27 @@ CHECKS['C19'] = dict(
    note='Trusted: Coq kernel + vm_compute (PrimFloat primitives for the float witness/correspondence), translator py2v (validated bit-for-bit), '
         'Model/Hp.v, harness/c19.py. Range/monotonicity theorems are exact-arithmetic statements; binary64 rounding is covered by the monitor only.',
    tech='Rocq proof over source-regenerated kernel + correspondence + monitor on implementation outputs', ref='DESIGN.md section 6 (C19)')
+CHECKS['C11'] = dict(
+   text='Machine-checked theorems over a model of the process-global state as cells and of a session as a fixed prologue (get_config memo cleared, configuration '
+        'entries and store re-created from the arguments) followed by an ARBITRARY program: the frame property (a run depends only on what it reads before writing), '
+        'hence the session returns the same result from any two process states that differ only in cells the prologue overwrites - whatever ran before, completed or '
+        'aborted; and a witness that without the (complete) clear a stale memo entry wins. That the code\'s prologue/epilogue have this shape is checked on /repo each '
+        'run, fail-closed. A subprocess differential (histories of earlier calls incl. aborted ones, then a probe, vs the probe in a fresh process; arguments '
+        'fingerprinted) searches the rest of the process state, which the model does not name.',
+   note='Trusted: Coq kernel; translator/purity.py; harness/c11.py + c11_worker.py. Process-global state outside the modelled cells (module singletons, functools/numba '
+        'caches) is covered by the search only: partial. Axiom-free.',
+   tech='Rocq proof (frame/noninterference over cell programs) + syntactic shape check of the prologue + subprocess differential search', ref='DESIGN.md section 6 (C11)')
+CHECKS['C12'] = dict(
+   text='Machine-checked theorems: (i) the fast matcher\'s stretched minute candle has exactly the range of the normal matcher\'s gap-normalised candle (generated '
+        'fix_jump), so the same orders are inside each minute; (ii) from the read lists, execution tests and chunk length REGENERATED from backtest_mode.py: the chunk '
+        'length divides every route timeframe, the fast simulator builds higher-timeframe candles and runs routes exactly when, and from the rows from which, the normal '
+        'one does at the chunk\'s last minute, and the normal one does neither inside a chunk; (iii) for a chunk with at most one resting order inside its range and '
+        'ANY strategy reaction that does not read the partial candle and places nothing inside the chunk, the fast chunk matcher and the normal simulator '
+        '(gap normalisation + per-minute matcher) fill the same order in the same minute and leave the same orders (induction over the chunk). The fast matcher model '
+        'is run in Coq against the real one with scripted reactions, and real sessions satisfying the hypothesis are run in both simulators and compared.',
+   note='Trusted: Coq kernel + vm_compute; translators; hand-written Model/Match.v, Model/FastMatch.v tied by correspondence; harness/c12.py, engine.py, driver.py. '
+        'Whole-session equality is searched, not proved. Axiom-free.',
+   tech='Rocq proof over regenerated kernels/read lists + two matcher models (chunk equivalence by induction); matcher correspondence; fast-vs-normal differential', ref='DESIGN.md section 6 (C12)')
 CHECKS['C17'] = dict(
    text='Machine-checked theorems (exact rationals) over size_to_qty, risk_to_qty, risk_to_size, limit_stop_loss, floor_with_precision and the timeframe '
         'tables REGENERATED from /repo each run: cost incl. fees <= capital, risk <= requested share, at most one precision step below the exact quotient, '
